@@ -101,15 +101,28 @@ def empties_first(prog, b, buf_idx=2):
 _PLUMBING = re.compile(r"(slice::is_empty|slice::len|Try::branch|FromResidual::from_residual|From::from|Into::into)$")
 
 
+def buffer_emptiness(facts, buf_idx=2):
+    """True / False when the dominating facts say the buffer parameter is empty / non-empty, however that was tested: is_empty(),
+    a comparison of len() with 0 or 1, or a `match buf.len() { 0 => .. }`; None when they say neither"""
+    SW = {"Lt": "Gt", "Le": "Ge", "Gt": "Lt", "Ge": "Le", "Eq": "Eq", "Ne": "Ne"}
+    for r in facts:
+        if r[0] == 'bool' and is_call(deep_strip(r[1]), 'slice::is_empty') and effects.base_of(deep_strip(r[1])[2][0])[:2] == ('param', buf_idx):
+            return r[2]
+        if r[0] == 'cmp':
+            for op, a, c in ((r[1], deep_strip(r[2]), deep_strip(r[3])), (SW[r[1]], deep_strip(r[3]), deep_strip(r[2]))):
+                if is_call(a, 'slice::len') and effects.base_of(a[2][0])[:2] == ('param', buf_idx) and c[0] == 'const' and c[1] in (0, 1):
+                    v = {("Eq", 0): True, ("Le", 0): True, ("Lt", 1): True, ("Ne", 0): False, ("Gt", 0): False, ("Ge", 1): False}.get((op, c[1]))
+                    if v is not None:
+                        return v
+    return None
+
+
 def empties_by_facts(prog, b, buf_idx=2):
     """Form-independent reading of "an empty buffer is a successful no-op": Ok(0) is returned on a path where the buffer is known
     to be empty, and every other return and every call that is not pure plumbing happens only where it is known to be non-empty
     (facts include those carried through the result of an inlined helper)."""
     def e_fact(facts):
-        for r in facts:
-            if r[0] == 'bool' and is_call(deep_strip(r[1]), 'slice::is_empty') and effects.base_of(deep_strip(r[1])[2][0])[:2] == ('param', buf_idx):
-                return r[2]
-        return None
+        return buffer_emptiness(facts, buf_idx)
     ok0 = False
     bad = []
     for pos, term in b.return_terms():
